@@ -143,6 +143,30 @@ def check_cds(spec, ctx):
     ctx.eq("num_chunk_relative_codons", cds3.num_chunk_relative_codons, len(model))
     cod = [str(c) for c in fresh().scan_codons()]
     ctx.eq("scan_codons", cod, mseqs)
+    # (3b) merged forms: the blocks are merged, the start offset is kept, and the frames generated for the merged location
+    # describe ONE uninterrupted reading frame (documented: internal frameshifts are lost)
+    if not degenerate and model:
+        sb = rm.sorted_blocks(bl)
+        merged = []
+        for s_, e_ in sb:
+            if merged and s_ <= merged[-1][1]:
+                merged[-1][1] = max(merged[-1][1], e_)
+            else:
+                merged.append([s_, e_])
+        first_frame = frames[0] if strand == "+" else frames[-1]
+        first_len = (merged[0][1] - merged[0][0]) if strand == "+" else (merged[-1][1] - merged[-1][0])
+        if first_len > first_frame or len(merged) == 1:
+            expf = rm.frames_from_offset(merged, strand, first_frame)
+            for name in ("optimize_blocks", "optimize_and_combine_blocks"):
+                try:
+                    mc = getattr(fresh(), name)()
+                except (BioCantorException, ValueError) as e:
+                    ctx.fail("merged_form_raises:" + name, repr(e)[:120])
+                    continue
+                ctx.eq("merged_form_blocks:" + name, [list(b) for b in rm.loc_blocks(mc.chromosome_location)], merged)
+                ctx.eq("merged_form_frames:" + name, [f.value for f in mc.frames], expf)
+                if len(merged) < len(sb):
+                    ctx.label("merged_form_lost_a_block_boundary")
     # (4) translation
     for table in ("DEFAULT", "STANDARD", "PROKARYOTE"):
         for truncate in (False, True):
@@ -311,6 +335,8 @@ PROP = Prop(
             must_hit=["minus&k>=3", "offset1", "offset2", "zero_gap", "frameshift", "window_cuts_codon", "window_at_exon_boundary",
                       "single_exon&offset!=0&window", "in_frame_stop", "cds_no_complete_codon"],
             rule="CDS from layouts (k<=5, 0-bp gaps) x strand x start offset 0/1/2, frames consistent or with one programmed frameshift, ACGT (1/6 with N/R/Y) genomes, 4..7 chromosome windows each with and without expansion; codon triples, three extraction paths, 12 translate configurations, predicates"),
+        Leg("cds_coverage_guided", check_cds, fuzz_of="cds", n_quick=150, n_thorough=6000, shards_quick=2, shards_thorough=8,
+            rule="coverage-guided: the `cds` leg's strategy driven by atheris/libFuzzer through hypothesis.fuzz_one_input with the `inscripta` package instrumented (fresh empty corpus, budget in runs; same check, clauses and known-finding predicates; failures collected unshrunk)"),
         Leg("single_exon_windows", check_cds, enumerate=enum_single_exon, exhaustive=True, shards_quick=8, shards_thorough=8,
             rule="single-exon CDS: offset x length 3..12 x strand x every window start (and 5 window ends), exhaustively"),
         Leg("construct_frames", check_construct_frames, strategy=strat_frames, n_quick=1500, n_thorough=15000,
